@@ -336,7 +336,9 @@ func handleHotRestartAck(s *Session, hdr header, buf []byte) (int, bool, error) 
 	s.listener.mu.Lock()
 	defer s.listener.mu.Unlock()
 
-	if epochID == s.listener.epoch {
+	// count the acknowledgement only while the listener is waiting for it: an ack that arrives
+	// after the attempt was given up (or twice) must not unbalance the next attempt
+	if s.listener.state == hotRestartState && s.state == hotRestartState && epochID == s.listener.epoch {
 		s.listener.hotRestartAckCount--
 		s.state = hotRestartDoneState
 	}
